@@ -39,6 +39,9 @@ def run(ctx):
         ("ShamirMC", "ShamirMC_flip.cfg", dict(workers=2), False),
         ("ShamirSecrecyMC", "ShamirSecrecyMC_broken.cfg", dict(workers=2), False),
     ]
+    if not quick:
+        jobs.append(("ShamirMC", "ShamirMC_n5.cfg", dict(workers=8), True))
+        jobs.append(("ShamirMC", "ShamirMC_gf16.cfg", dict(workers=16), True))
 
     def one(j):
         mod, cfg, kw, must = j
@@ -50,9 +53,9 @@ def run(ctx):
         job = dict(elem=dict(n_mul=300, n_inv=60, n_pow=60, n_law=60, per_trace=24),
                    shamir=dict(reps=1, max_orders=120, full_first=True, lag_every=8, ndup=6, large=[], large_orders=0))
     else:
-        job = dict(elem=dict(n_mul=4000, n_inv=500, n_pow=400, n_law=500, per_trace=40),
-                   shamir=dict(reps=6, max_orders=60, full_first=True, lag_every=4, ndup=10,
-                               large=[(3, 20), (6, 12), (2, 255), (10, 12), (5, 64)], large_orders=40))
+        job = dict(elem=dict(n_mul=60000, n_inv=8000, n_pow=5000, n_law=8000, per_trace=80),
+                   shamir=dict(reps=30, max_orders=60, full_first=True, lag_every=4, ndup=10,
+                               large=[(3, 20), (6, 12), (2, 255), (10, 12), (5, 64), (8, 9), (2, 1000), (12, 16)], large_orders=60))
     ex = ThreadPoolExecutor(max_workers=12)
     try:
         fut = [ex.submit(one, j) for j in jobs]
@@ -72,7 +75,8 @@ def run(ctx):
     ctx.extra["mutated_models_rejected"] = sep
     ctx.exhaustive = False
     ctx.rule = ("model: GF(2^3)/GF(2^4)/GF(2^8) field axioms for every element (quick tier: GF(2^8) first operand restricted to 36 elements), "
-                "Shamir on GF(2^3) for every secret, coefficient tape, variant, 2 <= k <= n <= 4 (quick: k <= 3), every ordered k-subset, "
+                "Shamir on GF(2^3) for every secret, coefficient tape, variant, 2 <= k <= n <= 4 (quick: k <= 3; thorough: also n = 5 with k <= 3 and "
+                "the same scheme over GF(2^4) with k <= 3), every ordered k-subset, "
                 "every duplicate sequence, secrecy by pre-image counting; implementation: _Element operations on 21 boundary elements "
                 "(all pairs) and seeded random ones, split/combine on a logged coefficient tape for every 2 <= k <= n <= 5, both variants, "
                 "every k-subset in every order, duplicate indexes (same share twice; same index with another value), judged by TLC with "
